@@ -3,7 +3,7 @@
    [gser]/[gser_top] (C05/Model.v) of zvariant::gvariant::Serializer; [gde] (C05/DeModel.v) models the Deserializer.
    Statements only; proofs are in C05/SerProofs.v, C05/Widths.v, C05/Refuted.v. *)
 From ZV Require Import Base.Bytes Base.Res Base.Sig DBus.Val DBus.Spec DBus.Ser C05.Val C05.Spec C05.Model C05.DeModel
-  C05.Classes C05.Widths C05.SerProofs C05.DeProofs C05.Refuted.
+  C05.Classes C05.Widths C05.SerProofs C05.DepthProofs C05.DeProofs C05.Refuted.
 Local Open Scope N_scope.
 
 (* The property at full strength: for every byte order, start offset and well-formed value within the nesting limits
@@ -155,3 +155,28 @@ Theorem C04_gv_step : forall (fuel : nat) (st : dst) (p : panic),
   gde fuel st = Panic p -> (p = PStack /\ stack_limit < r_len st) \/ (p = PArith /\ 256 <= r_len st).
 Proof. exact gde_panics. Qed.
 Print Assumptions C04_gv_step.
+
+(* ---- C07, GVariant half, encoder: for every well-formed value outside the known classes the serializer stops with a
+   depth error exactly when the value exceeds 32 arrays (dicts count), 32 tuples or 64 containers in total (variants
+   and maybes — `Just` only — count as containers); otherwise it succeeds (C05_partial).  The counters are restored on
+   every exit path: that is the state equation of C05_step. ---- *)
+Theorem C07_gv_ser : forall (e : endian) (pos : N) (v : gval),
+  gwf v = true -> gplain v = true -> gsmall e v = true -> known_c05 e v = false ->
+  ((exists k, gser_top e pos (gsig v) (sval_of v) = Err (EDepth k)) <-> gwithin_limits v = false).
+Proof.
+  intros e pos v Hw Hp Hs Hk. split.
+  - intros [k Hx]. destruct (gwithin_limits v) eqn:Hl; [|reflexivity].
+    rewrite (C05_partial e pos v Hw Hl Hp Hs Hk) in Hx. discriminate.
+  - intros Hl. now apply gser_top_depth.
+Qed.
+Print Assumptions C07_gv_ser.
+
+(* a tower of 33 arrays is refused, 32 are accepted; 64 maybes around a byte are accepted, 65 refused *)
+Fixpoint tower_a (n : nat) (v : gval) : gval := match n with O => v | S k => GArray (gsig (tower_a k v)) [tower_a k v] end.
+Fixpoint tower_m (n : nat) (v : gval) : gval := match n with O => v | S k => GMaybe (gsig (tower_m k v)) (Some (tower_m k v)) end.
+Example C07_gv_instances :
+  gwithin_limits (tower_a 32 (GU8 7)) = true /\ gwithin_limits (tower_a 33 (GU8 7)) = false /\
+  gwithin_limits (tower_m 64 (GU8 7)) = true /\ gwithin_limits (tower_m 65 (GU8 7)) = false /\
+  gser_top LE 0 (gsig (tower_a 33 (GU8 7))) (sval_of (tower_a 33 (GU8 7))) = Err (EDepth DArray) /\
+  gser_top LE 0 (gsig (tower_m 65 (GU8 7))) (sval_of (tower_m 65 (GU8 7))) = Err (EDepth DTotal).
+Proof. repeat split; vm_compute; reflexivity. Qed.
